@@ -108,11 +108,11 @@ type OErr struct {
 }
 
 type Event struct {
-	K    string  `json:"k"` // proc | write | dack | dlqwrite | dlqack | sack
-	P    int     `json:"p,omitempty"`
-	Recs []ORec  `json:"recs,omitempty"`
-	Pos  [][]int `json:"pos,omitempty"`
-	Kinds []int  `json:"kinds,omitempty"` // proc: result kinds returned (see coq/Funnel/Tasks.v kind_code)
+	K     string  `json:"k"` // proc | write | dack | dlqwrite | dlqack | sack
+	P     int     `json:"p,omitempty"`
+	Recs  []ORec  `json:"recs,omitempty"`
+	Pos   [][]int `json:"pos,omitempty"`
+	Kinds []int   `json:"kinds,omitempty"` // proc: result kinds returned (see coq/Funnel/Tasks.v kind_code)
 }
 
 type Obs struct {
@@ -130,20 +130,26 @@ type Obs struct {
 // model checks the shipped and the repaired tree; the property monitor does not
 // depend on it.
 type Fixes struct {
-	CondPad  bool `json:"cond_pad"`
-	More     bool `json:"more"`
-	Unfilter bool `json:"unfilter"`
-	SrcPos   bool `json:"srcpos"`
-	EmptyAck bool `json:"emptyack"`
-	V1Acker  bool `json:"v1_acker"`
+	CondPad   bool `json:"cond_pad"`
+	More      bool `json:"more"`
+	Unfilter  bool `json:"unfilter"`
+	SrcPos    bool `json:"srcpos"`
+	EmptyAck  bool `json:"emptyack"`
+	ProcFatal bool `json:"procfatal"`
+	V1Acker   bool `json:"v1_acker"`
 }
 
 // TreeFix is set once at start-up.
 var TreeFix Fixes
 
 func (f Fixes) coq() string {
-	return fmt.Sprintf("(mkFix %s %s %s %s %s)", hx.Bool(f.CondPad), hx.Bool(f.More), hx.Bool(f.Unfilter),
-		hx.Bool(f.SrcPos), hx.Bool(f.EmptyAck))
+	// fx_procfatal is rendered as repaired whatever the probe saw: the fatality of
+	// a processor error the DLQ does not absorb is C10's property and the C08/C09
+	// monitors have no clause for it, so a tree showing the shipped variant must
+	// surface as a disagreement with the model instead of being followed silently
+	// (the probed value stays visible in the case's "variant").
+	return fmt.Sprintf("(mkFix %s %s %s %s %s %s)", hx.Bool(f.CondPad), hx.Bool(f.More), hx.Bool(f.Unfilter),
+		hx.Bool(f.SrcPos), hx.Bool(f.EmptyAck), hx.Bool(true))
 }
 
 // ---- JSON ----
